@@ -67,4 +67,10 @@ def h_rest_cron_persistence_local_flag_store_go : Nat := 0x9ca2f4d9ad22e50c
 /-- hash of the normalised skeleton of * (internal/persistence/local/storage/storage.go) -/
 def h_rest_cron_persistence_local_storage_storage_go : Nat := 0x878d3d799fdfb72e
 
+/-- hash of the normalised skeleton of * (internal/client/client.go) -/
+def h_rest_cron_client_client_go : Nat := 0xe07e21f2dfcfd000
+
+/-- hash of the normalised skeleton of * (internal/dag/parser.go) -/
+def h_rest_cron_dag_parser_go : Nat := 0xd29bfaf6bdcd20ad
+
 end BdModel.Canon.Cron
